@@ -122,12 +122,11 @@ def gen_cases(ck):
     P = lambda i: ("poll", i)
     D = lambda i: ("dropsub", i)
     # (a) every interleaving of <= 4 sets with polls of 1..2 subscribers created at arbitrary points
-    family("sets_polls_2subs", ["set", "sub", P(0), P(1)], 8 if quick else 10, 4, 2)
+    family("sets_polls_2subs", ["set", "sub", P(0), P(1)], 10 if quick else 12, 4, 2)
     # (b) the same with subscribers and the state being dropped
-    family("with_drops", ["set", "sub", P(0), P(1), D(0), D(1), "dropstate"], 6 if quick else 7, 4, 2)
-    if not quick:
-        # (c) <= 6 sets, 3 subscribers: exhaustive up to the length bound
-        family("sets_polls_3subs", ["set", "sub", P(0), P(1), P(2)], 8, 6, 3)
+    family("with_drops", ["set", "sub", P(0), P(1), D(0), D(1), "dropstate"], 7 if quick else 9, 4, 2)
+    # (c) <= 6 sets, 3 subscribers: exhaustive up to the length bound
+    family("sets_polls_3subs", ["set", "sub", P(0), P(1), P(2)], 7 if quick else 10, 6, 3)
     # (d) one-shot: every list of notify / drop / poll (notify before/after the first poll,
     #     notifier dropped without notifying, repeated polls, second notify attempt)
     n1 = 5 if quick else 7
@@ -142,7 +141,7 @@ def gen_cases(ck):
                           "op_lists_covered_including_prefixes": len(once_lists),
                           "cases_run": sum(1 for l in once_lists if len(l) == n1)}
     # (e) seeded random: <= 6 sets, <= 3 subscribers, drops, one-shot operations interleaved
-    for i in range(1500 if quick else 40000):
+    for i in range(3000 if quick else 40000):
         add(random_ops(rng, 6, 3, rng.choice([8, 12, 16, 24, 32])), "random")
     return cases, exhaustive
 
@@ -248,7 +247,8 @@ def shrink(ck, c, code_mask):
 
 def main():
     ck = Check(PID)
-    ck.prove(["Notified/NotifiedExec.v", "Notified/NotifiedProofs.v"], "props/C20.v")
+    ck.prove(["Notified/NotifiedExec.v", "Notified/NotifiedProofs.v"], "props/C20.v",
+             extra_audit=["Notified/NotifiedExec.v"])
 
     exhaustive = {}
     if ck.replay:
@@ -273,16 +273,21 @@ def main():
 
     # report: property violations first (shortest first), at most 5; then model-only differences
     order = sorted(bad, key=lambda i: (0 if bad[i] & 2 else 1, len(items[i][0]["ops"]), i))
-    n_rep = 0
+    n_rep, n_try, seen_small = 0, 0, set()
     for idx in order:
-        if n_rep >= 5:
+        if n_rep >= 5 or n_try >= 12:
             break
         c, r = items[idx]
         code = bad[idx]
-        n_rep += 1
+        n_try += 1
         small = c["ops"]
-        if n_rep <= 2 and not ck.replay and len(small) > 3:
+        if n_try <= 4 and not ck.replay and len(small) > 3:
             small = shrink(ck, c, 2 if code & 2 else 1)
+        key = json.dumps([[o[0]] + ([o[1]] if o[0] in ("poll", "dropsub") else []) for o in small])
+        if key in seen_small:
+            continue            # the same minimal scenario (up to the values) was already reported
+        seen_small.add(key)
+        n_rep += 1
         cs = {"id": 0, "ops": small, "tag": c["tag"]}
         rs = ck.harness_run("notified", [cs])[0]
         term = render_case(cs, rs)
@@ -318,7 +323,7 @@ def main():
         "evaluations": len(cases), "distinct_nontrivial": len(nontriv), "distinct": len(hashes),
         "traces_validated_against_impl": len(items), "crates": ["zlink-tokio", "zlink-smol"],
         "case_classes": hist, "op_kinds": kinds, "op_list_lengths": {str(k): v for k, v in sorted(lens.items())},
-        "cases_with_a_lagging_subscriber": lagged, "exhaustive": exhaustive,
+        "cases_with_a_lagging_subscriber": lagged, "exhaustive_families": exhaustive,
     })
     for c in cases[:2] + cases[len(cases) // 2: len(cases) // 2 + 2] + cases[-2:]:
         ck.samples.append({"ops": " ".join(coq_op(o).replace(" ", "") for o in c["ops"]), "tag": c["tag"]})
